@@ -233,6 +233,25 @@ def gen(rng, tier):
                 cases.append({"cluster": spec, "ops": boot_ops(spec) + [T("set_group_offset_storage", [1]), T("set_retry_max_attempts", [limit]), op],
                               "profile": profiles[(limit + code) % 2],
                               "meta": {"target": "%s-answers-%d-forever/limit-%d/%s" % (what, code, limit, op.name), "api": "group", "label": "persistent-retryable"}})
+    # state left by an earlier reply of another API: a group's coordinator is cached, then a full reload answers with fewer (or other,
+    # or reordered) brokers, then the group is used again
+    b1 = {"node_id": 1, "host": b"b1", "port": 9092}
+    b2 = {"node_id": 2, "host": b"b2", "port": 9093}
+    tp1 = lambda ls: {"error": 0, "topic": T1, "partitions": [{"error": 0 if l >= 0 else 5, "id": i, "leader": l, "replicas": [], "isr": []} for i, l in enumerate(ls)]}
+    reloads = [("fewer-brokers", {"brokers": [b1], "topics": [tp1([1, 1])]}),
+               ("no-brokers", {"brokers": [], "topics": [tp1([-1, -1])]}),
+               ("other-broker", {"brokers": [{"node_id": 9, "host": b"b1", "port": 9092}], "topics": [tp1([9, 9])]}),
+               ("reordered", {"brokers": [b2, b1], "topics": [tp1([1, 1])]})]
+    for coord in (1, 2):
+        for (label, body) in reloads:
+            for k, after in enumerate(([T("commit_offsets", [b"g", [T("co", [T1, 0, 2])]])],
+                                       [T("fetch_group_offsets", [b"g", [T("fgo", [T1, 0])]]), T("fetch_group_topic_offset", [b"g", T1])])):
+                spec = cluster_spec()
+                spec["coordinator"] = {b"g": coord}
+                ops = boot_ops(spec) + [T("set_group_offset_storage", [1]), T("commit_offsets", [b"g", [T("co", [T1, 0, 1])]]),
+                                        {"op": T("load_metadata_all"), "mutate": {"kind": "body", "body": body, "api": "metadata"}}] + after
+                cases.append({"cluster": spec, "ops": ops, "profile": profiles[(coord + k) % 2],
+                              "meta": {"target": "group-call-after-reload/coordinator-%d" % coord, "api": "metadata", "label": "reload-" + label}})
     for n, c in enumerate(cases):
         c["id"] = "C13-%d-%s-%s" % (n, c["meta"]["target"], c["meta"]["label"])
     return cases
